@@ -17,6 +17,17 @@
 #include <xmmintrin.h>
 #include <emmintrin.h>
 #include "arch.h"
+/* every header the two files include, BEFORE the hooks are installed (inline functions in headers use the same macros) */
+#include "mathops.h"
+#include "cwrs.h"
+#include "vq.h"
+#include "os_support.h"
+#include "bands.h"
+#include "rate.h"
+#include "pitch.h"
+#include "celt_lpc.h"
+#include "stack_alloc.h"
+#include "celt/x86/x86cpu.h"
 
 #define MAXN 200
 static int g_phase = 0;                 /* 0 = before / inside the pre-search, 1 = greedy loop */
